@@ -16,8 +16,9 @@ GROUPS = {
     "dtype_cast": dict(filter="k_dtype::cast_", bounded=None),
     "dtype_sortcmp": dict(filter="k_dtype::sortcmp_", bounded=None),
     "nulls_bounded": dict(filter="k_agg::bounded_nulls_", bounded="BOUNDED: every logical series of length <= 3 over {null, -2..2} in the NaN and the None encoding, plus one inserted null at every position"),
-    "backend_bounded": dict(filter="k_backend::bounded_", bounded="BOUNDED: 3-4 symbolic i32 elements; Vec, fixed array, VecDeque at head offsets 0..3 of a 4-slot buffer (contiguous and wrapped); ndarray / Polars not compiled"),
+    "backend_bounded": dict(filter="k_backend::bounded_", bounded="BOUNDED: 3-4 symbolic i32 elements; Vec, fixed array, VecDeque at head offsets 0..3 of a 4-slot buffer (contiguous and wrapped); the index drivers rolling_apply_idx / rolling2_apply_idx (returned path) on a 3-element VecDeque for windows 1..4; ndarray / Polars not compiled"),
     "unique_bounded": dict(filter="k_cut::bounded_sorted_unique", bounded="BOUNDED: every sorted series of length <= 5 over {0,1,2} with a null block at the head or tail, ascending and descending"),
+    "map_bounded": dict(filter="k_map::bounded_", bounded="BOUNDED: vdiff / vshift on every NaN-encoded series of length 3 over {null, -2..2}, lags -4..=4, fill null / non-null; backstop next to the Verus map unit"),
     "agg_bounded": dict(filter="k_agg::bounded_agg_", bounded="BOUNDED: every series of length <= 4 over {null, -3..3} resp. {null, false, true}; a stand-in next to the Verus agg / aggb units, not a proof"),
     "gen_range": dict(filter="k_gen::range_", bounded="BOUNDED: a, b, step symbolic i32 within +-2^8; complete over that band, both step directions"),
     "gen_range_wide": dict(filter="k_gen::wide_range_", bounded="BOUNDED: a, b, step symbolic i32 within +-2^12; both step directions"),
